@@ -39,7 +39,11 @@ type regModel struct {
 	corrupt    int // which single-field corruption to apply to blob GET responses (0 = none)
 	refAPI     bool // Referrers API supported
 	yield      bool // yield inside every exchange so that cooperative schedules interleave exchanges
-	failNext   string // fail the next request whose "METHOD path-prefix" matches (one injected failure)
+	failKind   int    // one injected failure: 1 = index GET by tag (500), 2 = index PUT by tag (403), 3 = DELETE of an index manifest (405)
+	failFired  bool
+	failedPut  []byte // body of the index PUT the failure hit (2), or of the last index PUT before the failing DELETE (3)
+	failedOld  []byte // index the failed batch started from
+	lastIdxPut []byte
 	badRequest string
 	log        []string
 }
@@ -210,6 +214,23 @@ func (m *regModel) manifest(req *http.Request, ref string) (*http.Response, erro
 		dg = m.tags[ref]
 	}
 	data, ok := m.manifests[dg]
+	if m.failKind != 0 && !m.failFired {
+		switch {
+		case m.failKind == 1 && req.Method == http.MethodGet && !isDigest && strings.HasPrefix(ref, "sha256-"):
+			m.failFired = true
+			return m.status(req, http.StatusInternalServerError, nil), nil
+		case m.failKind == 2 && req.Method == http.MethodPut && !isDigest && strings.HasPrefix(ref, "sha256-"):
+			m.failFired = true
+			m.failedPut, _ = io.ReadAll(req.Body)
+			m.failedOld = data
+			return m.status(req, http.StatusForbidden, nil), nil
+		case m.failKind == 3 && req.Method == http.MethodDelete && ok && m.mediaTypes[dg] == ocispec.MediaTypeImageIndex:
+			m.failFired = true
+			m.failedPut = m.lastIdxPut
+			m.failedOld = data
+			return m.status(req, http.StatusMethodNotAllowed, nil), nil
+		}
+	}
 	switch req.Method {
 	case http.MethodGet, http.MethodHead:
 		if req.Header.Get("Accept") == "" {
@@ -243,6 +264,7 @@ func (m *regModel) manifest(req *http.Request, ref string) (*http.Response, erro
 		m.mediaTypes[d] = mt
 		if !isDigest {
 			m.tags[ref] = d
+			m.lastIdxPut = body
 		}
 		resp := m.status(req, http.StatusCreated, nil)
 		if m.digestHdr {
